@@ -112,9 +112,15 @@ func (o c11Op) expect() c11Res {
 		return o.run()
 	case "hotp-err", "totp-err", "ocra-err": // failing calls: an error and nothing else, whatever happened before
 		return c11Res{Err: true}
+	case "fresh-enum":
+		// the reference must not be taken beforehand (that would be the first use): the checks compare with the result of
+		// the same call made alone AFTERWARDS
+		return postHoc
 	}
 	return c11Res{}
 }
+
+var postHoc = c11Res{S: "\x00reference-taken-afterwards"}
 
 func (o c11Op) run() c11Res {
 	secret := ref.B32(o.Key)
@@ -170,7 +176,15 @@ func (o c11Op) run() c11Res {
 	case "ocra-err":
 		su, cfg := o.suite()
 		in := o.In
-		switch { // break one selected field, or use an undecodable secret
+		switch { // break one selected field (which one rotates with the operation's numbers), or use an undecodable secret
+		case cfg.P && (o.Digits+o.Algo)%2 == 0:
+			// a password that is not a digest of the suite's hash: a raw PIN, a digest of another size
+			in.P = append([]byte("raw-pin-"), o.Key...)
+			if len(in.P) == ref.PLen(cfg.PHash) {
+				in.P = in.P[:len(in.P)-1]
+			}
+		case cfg.S && (o.Digits+o.Algo)%3 == 0:
+			in.S = make([]byte, 129+o.Skew)
 		case cfg.Q:
 			in.Q = make([]byte, 129+o.Skew)
 		case cfg.C:
@@ -223,6 +237,23 @@ func (o c11Op) run() c11Res {
 			return c11Res{S: pick, Err: true}
 		}
 		return c11Res{S: fmt.Sprintf("%d|%s|%+v|%s|%v", len(l), strings.Join(l, ","), su.Config(), su.String(), otp.IsKnownSuite(pick))}
+	case "fresh-enum":
+		// an enumeration value outside the supported ones that this process has not rendered before (o.Algo is handed out
+		// by a process-wide counter): whatever the library keeps about names of values it meets for the first time is
+		// written now — with other goroutines in the same code at the same time
+		a := otp.Algorithm(o.Algo)
+		s1 := a.String()
+		s2 := fmt.Sprintf("%v|%s", a, fmt.Sprint(otp.Digits(o.Algo).Int()))
+		u, e1 := otp.GenerateHOTPURL(otp.URLParam{Issuer: "I", AccountName: "a", Secret: secret, Algorithm: a})
+		us := ""
+		if u != nil {
+			us = u.String()
+		}
+		cfg := otp.SuiteConfig{Raw: "x", Hash: a, Digits: 6, Challenge: otp.ChallengeNumeric08, IncludeChallenge: true}
+		e2 := cfg.Validate()
+		_, e3 := otp.GenerateOCRA(secret, cfg, otp.OCRAInput{Challenge: []byte("12345678")})
+		_, e4 := otp.GenerateHOTP(secret, 1, &otp.Param{Digits: 6, Algorithm: a})
+		return c11Res{S: fmt.Sprintf("%s|%s|%s|%v|%v|%v|%v", s1, s2, us, e1, e2, e3, e4)}
 	case "url", "hotp-url":
 		up := otp.URLParam{Issuer: "I " + o.Text, AccountName: o.Text, Secret: secret, Digits: otp.Digits(o.Digits), Algorithm: otp.Algorithm(o.Algo), Period: uint(o.Skew) * 7}
 		gen := otp.GenerateTOTPURL
@@ -346,6 +377,9 @@ func checkC11Seq(c c11SeqCase) verdict {
 		default:
 			want := o.expect()
 			got := o.run()
+			if want == postHoc {
+				want = o.run()
+			}
 			if got != want {
 				return bad(true, labels, "step %d (%s): got %v, alone it returns %v (history of %d earlier calls)", i, o.Kind, got, want, i)
 			}
@@ -370,15 +404,23 @@ var c11Seq = newPart("C11", "sequential-adversary",
 	checkC11Seq)
 
 func drawC11Op(t *rapid.T, allowHostile bool) c11Op {
-	kinds := []string{"hotp-gen", "hotp-gen", "hotp-val", "totp-gen", "totp-val", "ocra-gen", "ocra-gen", "ocra-gen", "ocra-val", "lookup", "url", "hotp-url", "helpers", "list", "hotp-err", "totp-err", "ocra-err"}
+	kinds := []string{"hotp-gen", "hotp-gen", "hotp-val", "totp-gen", "totp-val", "ocra-gen", "ocra-gen", "ocra-gen", "ocra-val", "lookup", "url", "hotp-url", "helpers", "list", "hotp-err", "totp-err", "ocra-err", "fresh-enum"}
 	if allowHostile {
 		kinds = append(kinds, "gc", "adversary", "adversary")
 	}
 	return drawC11OpOfKind(t, rapid.SampledFrom(kinds).Draw(t, "kind"))
 }
 
+// freshEnum hands out enumeration values outside the supported ones, each at most once per process while they last
+var freshEnum atomic.Int64
+
 func drawC11OpOfKind(t *rapid.T, kind string) c11Op {
 	o := c11Op{Kind: kind}
+	if kind == "fresh-enum" {
+		o.Key = []byte("12345678901234567890")
+		o.Algo = 3 + int(freshEnum.Add(1)-1)%253
+		return o
+	}
 	o.Key = rapid.SliceOfN(rapid.Byte(), 1, 40).Draw(t, "key")
 	o.Counter = gen.Counter().Draw(t, "counter")
 	if strings.HasPrefix(o.Kind, "totp") {
@@ -508,6 +550,12 @@ func checkC11Conc(c c11ConcCase) verdict {
 	before := raceReports()
 	var mu sync.Mutex
 	var firstErr string
+	type laterCheck struct {
+		g, i int
+		op   c11Op
+		got  c11Res
+	}
+	var later []laterCheck
 	fail := func(f string, a ...any) {
 		mu.Lock()
 		if firstErr == "" {
@@ -573,7 +621,11 @@ func checkC11Conc(c c11ConcCase) verdict {
 				var retained []kept
 				for i, o := range prog {
 					got := o.run()
-					if got != want[g][i] {
+					if want[g][i] == postHoc {
+						mu.Lock()
+						later = append(later, laterCheck{g, i, o, got})
+						mu.Unlock()
+					} else if got != want[g][i] {
 						fail("goroutine %d op %d (%s): got %v concurrently, alone it returns %v", g, i, o.Kind, got, want[g][i])
 						return
 					}
@@ -595,6 +647,12 @@ func checkC11Conc(c c11ConcCase) verdict {
 		wg.Wait()
 		close(stop)
 		bg.Wait()
+		for _, l := range later {
+			if alone := l.op.run(); alone != l.got {
+				fail("goroutine %d op %d (%s): got %v concurrently (first use in this process), the same call made alone afterwards returns %v", l.g, l.i, l.op.Kind, l.got, alone)
+			}
+		}
+		later = later[:0]
 	}
 	labels := []string{fmt.Sprintf("procs=%d", c.Procs), fmt.Sprintf("goroutines=%d", len(c.Progs))}
 	if c.Adversaries > 0 {
@@ -680,6 +738,7 @@ func checkC11Sat(c c11SatCase) verdict {
 	start := make(chan struct{})
 	progress := make([]atomic.Int64, c.Goroutines)
 	var stop atomic.Bool
+	var firstSeen atomic.Pointer[c11Res]
 	for g := 0; g < c.Goroutines; g++ {
 		wg.Add(1)
 		go func(g int) {
@@ -699,7 +758,17 @@ func checkC11Sat(c c11SatCase) verdict {
 				got := c.Op.run()
 				n++
 				progress[g].Add(1)
-				if got != want {
+				if want == postHoc { // compared with the first result anybody saw, and with a lone call afterwards
+					firstSeen.CompareAndSwap(nil, &got)
+					if f := firstSeen.Load(); *f != got {
+						mu.Lock()
+						if firstErr == "" {
+							firstErr = fmt.Sprintf("goroutine %d call %d (%s): got %v, another goroutine got %v for the same call", g, i, c.Op.Kind, got, *f)
+						}
+						mu.Unlock()
+						break
+					}
+				} else if got != want {
 					mu.Lock()
 					if firstErr == "" {
 						firstErr = fmt.Sprintf("goroutine %d call %d (%s): got %v while %d goroutines run the same call, alone it returns %v", g, i, c.Op.Kind, got, c.Goroutines, want)
@@ -739,6 +808,11 @@ func checkC11Sat(c c11SatCase) verdict {
 	}
 	stop.Store(true)
 	wg.Wait()
+	if f := firstSeen.Load(); f != nil && firstErr == "" {
+		if alone := c.Op.run(); alone != *f {
+			firstErr = fmt.Sprintf("%s: %d goroutines meeting the value for the first time got %v, the same call made alone afterwards returns %v", c.Op.Kind, c.Goroutines, *f, alone)
+		}
+	}
 	recorders["C11/saturation"].Label("calls", calls)
 	labels := []string{"kind=" + c.Op.Kind, fmt.Sprintf("procs=%d", c.Procs), fmt.Sprintf("goroutines=%d", c.Goroutines)}
 	if firstErr != "" {
@@ -755,7 +829,7 @@ var c11Sat = newPart("C11", "saturation",
 	checkC11Sat)
 
 // kinds ending in "+" are validations of the RIGHT code (a capacity that fails closed shows as a refused right code)
-var c11SatKinds = []string{"hotp-val+", "totp-val+", "ocra-val+", "hotp-val", "totp-val", "ocra-val", "hotp-gen", "totp-gen", "ocra-gen", "lookup", "url", "hotp-url", "helpers", "list", "hotp-err", "totp-err", "ocra-err"}
+var c11SatKinds = []string{"fresh-enum", "hotp-val+", "totp-val+", "ocra-val+", "hotp-val", "totp-val", "ocra-val", "hotp-gen", "totp-gen", "ocra-gen", "lookup", "url", "hotp-url", "helpers", "list", "hotp-err", "totp-err", "ocra-err"}
 
 // satGoroutines: the first pass over the kinds (all of the quick tier) uses the largest number the property names, 64,
 // which exceeds any capacity a smaller number would exceed; later passes vary it.
